@@ -23,6 +23,7 @@ type Result struct {
 	Skipped  bool // not executed (cost guard)
 	Timeout  bool // reference execution exceeded its step budget
 	Ret      string
+	NilRes   bool   // a factory that is documented to return a Decimal returned nil
 	Foreign  string // non-empty: a math/big operand (SetInt, SetRat, SetFloat) was changed by the call
 	Z        Obs
 	HasZ     bool
@@ -128,7 +129,7 @@ var opInfo = map[string]struct {
 	"SetInt64": {0, true, false}, "SetUint64": {0, true, false}, "SetFloat64": {0, true, false},
 	"SetInt": {0, true, false}, "SetRat": {0, true, false}, "SetFloat": {0, true, false}, "SetInf": {0, true, false},
 	"SetMantExp": {1, true, false}, "MantExp": {1, true, false},
-	"SetBitsExp": {0, true, false}, "BitsSelf": {0, true, true},
+	"SetBitsExp": {0, true, false}, "BitsSelf": {0, true, true}, "BitsEdit": {0, true, true},
 	"Parse": {0, true, false}, "SetString": {0, true, false}, "Scan": {0, true, false}, "Sscanf": {0, true, false},
 	"UnmarshalText": {0, true, false}, "UnmarshalJSON": {0, true, false}, "GobDecode": {0, true, false},
 	"GobCopy": {1, true, false}, "TextCopy": {1, true, false}, "JSONCopy": {1, true, false},
@@ -261,6 +262,32 @@ func execOp(w *World, op *Op) (res Result) {
 		z.SetBitsExp(m, op.I)
 	case "~dirty":
 		decimal.VerifDirty(z, int(op.I), stalePattern(op.M, uint64(op.I)*31+7))
+	case "BitsEdit":
+		// the documented raw workflow: take the receiver's own words, change them in
+		// place, give them back ("obtained as a result of a call to BitsExp with the
+		// same receiver"; "if mant is not normalized, SetBitsExp will normalize it")
+		m, e := z.BitsExp()
+		if n := len(m); n > 0 {
+			switch op.M {
+			case 0:
+				m[n-1] /= 10 // leading digit becomes 0
+			case 1:
+				for i := range m {
+					m[i] = 0
+				}
+			case 2:
+				m[0] = decimal.Word(op.U % wordBase)
+			case 3:
+				m[n-1] = 1 // 18 leading zeros
+			case 4:
+				m[n-1] = 0 // a whole leading zero word
+			case 5:
+				for i := range m {
+					m[i] = decimal.Word(wordBase - 1)
+				}
+			}
+		}
+		z.SetBitsExp(m, int64(e)+op.I)
 	case "BitsSelf":
 		m, e := z.BitsExp()
 		z.SetBitsExp(m, int64(e))
